@@ -29,7 +29,8 @@ THEOREMS = [
     'C05.wrapWith_recip', 'C05.recip_spec', 'C05.getSpos_spec', 'C05.boxSet_spec', 'C05.wrapC_spec',
     'C05.rebuild_spec', 'C05.normalizeC_spec', 'C05.stepC_erase', 'C05.runC_erase', 'C05.runC_cache_irrelevant',
     'C05.coherent_fresh', 'C05.hist_wrap_reconstruct', 'C05.hist_wrap_inside', 'C05.normalizeS_eq_normalize',
-    'C05.hist_normalize', 'C05.zeroSmall_eq_self',
+    'C05.hist_normalize', 'C05.zeroSmall_eq_self', 'C05.maxAbs_zeroSmall', 'C05.zeroSmall_idem', 'C05.clean_stepC',
+    'C05.clean_runC', 'C05.hist_wrap_full',
 ]
 PARTIAL = {
     'input_left_as_it_was': 'a heap fact (aliasing/mutation), true by construction of the functional model and '
@@ -41,7 +42,8 @@ PARTIAL = {
                        'largest one are set to 0) is part of the object-level model (zeroSmall) and of the '
                        'correspondence, but the wrap_*/normalize_* theorems are about the functional model without it: '
                        'they transfer to the object under the explicit hypothesis that the clean-up is inactive '
-                       '(hist_wrap_inside: hclean; hist_normalize: hc1-hc3; zeroSmall_eq_self says when). Where it is '
+                       '(hist_wrap_inside: hclean; hist_normalize: hc1-hc3; zeroSmall_eq_self says when; for a fully periodic wrap '
+                       'the hypothesis is discharged: zeroSmall_idem, clean_runC, hist_wrap_full). Where it is '
                        'active the real code does change a cell vector by up to 1e-9 of the largest component; the '
                        'oracle grants exactly that much and only where a component became exactly 0',
 }
@@ -1134,8 +1136,8 @@ def _gen_hist(rng, regime):
     ops = []
     import numpy as np
     srel = np.abs(np.linalg.solve(np.array(case['vects']).T, (np.array(case['pos']) - np.array(case['origin'])).T).T)
-    free = [bool(srel[:, k].max() <= 100.0) for k in range(3)]
     far = bool(srel.max() > 100.0)
+    free = [not far] * 3       # (a strain under fixed Cartesian positions mixes the axes along which an atom is far)
     # opening: the cache is warmed (or not) before the cell is touched
     first = rng.choice(['spos', 'wrap', 'norm', None, 'spos', 'wrap'])
     if first:
